@@ -12,7 +12,7 @@ HARNESSES = [dict(name="ha", pkg="./pkg/ha/", test="TestVerifC11", timeout=900,
 # a bulk sync, sender steps not atomic).  Variants for fixed findings are gone: a regression is a VIOLATION.
 VARIANTS = ["repaired", "d_stale", "d_head"]
 # known-finding signatures
-SIG = {"stale": "stale-redelivery-applied", "lagdel": "bulk-sync-cannot-convey-missed-delete",
+SIG = {"stale": "stale-redelivery-applied", "lagdel": "bulk-sync-lagging-standby-not-converging",
        "race": "sender-seq-push-not-atomic"}
 RULE = ("conc: HandleEvent called by concurrent handlers stopped by a gate inside sessionToCheckpoint (handshakes, no sleeps): all interleavings of start/completion of 2 and 3 handlers for capacities 2 and 4, random ones for 3-5 handlers mixed with uninterrupted events; monitors ring consecutive, stream order = sequence order, Range exact for every (from,to) in 0..n+1. "
         "rng: ring capacities {1..9, 16, 0 and -1 (=10000)} x pushed runs of consecutive uint64 sequence numbers (fresh, wrapped "
@@ -337,7 +337,7 @@ def gen_hist(rng, mode, nops):
                 if nxt[g] == len(sent[g]) and not any(d for d, _ in win):
                     ops.append("B:%d" % g)
             elif m >= 1:
-                if y < 0.8 or mode in ("drop", "relall", "bulk"):
+                if y < 0.8 or mode in ("relall", "bulk"):
                     ops.append("R:%d:%d" % (g, m))                      # duplicate of the newest delivered message
                 else:
                     ops.append("P:%d:%d:%d" % (g, rng.randint(0, m), m))  # replay ending at the newest delivered one
@@ -533,8 +533,9 @@ def _triggers(case):
             n = len(sent[g])
             if n > cap and last[g] + 1 < n - cap + 1:
                 out.add("window")             # the standby is behind the retained window
-            if last[g] > 0 and any(dels[g][last[g]:]):
-                out.add("lagdel")             # the standby has state and has not been delivered a DELETE
+            if 0 < last[g] < n:
+                out.add("lagdel")             # the standby has state and is behind: a missed DELETE or an address that
+                                              # changed hands in the gap cannot be conveyed by bare checkpoints
             if n:
                 m[g], last[g] = max(m[g], n), n
             if f[0] == "C":
